@@ -226,6 +226,9 @@ class Interp:
         self._region_first = False
         self.block_hooks = {}
         self.typed_unknown = None
+        self.fn_full = {}
+        self.opaque_index = None       # optional resolver for `slice[i]` places on abstract slices (loader)
+        self.hooks_any_depth = False   # block hooks fire in callee frames too (loops inside helper functions)
         self.opaque_stores = []
         self.debug_nonint = None
         self._st = None
@@ -289,8 +292,14 @@ class Interp:
                         path = path + (c,)
                     elif isinstance(self.read_loc(st, root, path), SymArr):
                         path = path + (SymIdx(iv.bits),)
+                    elif self.opaque_index is not None and isinstance(self.read_loc(st, root, path), Opaque) and \
+                            self.opaque_index(st, fr, place, pr, self.read_loc(st, root, path), iv) is not None:
+                        root, path = self.opaque_index(st, fr, place, pr, self.read_loc(st, root, path), iv)
                     else:
-                        path = path + (self.sym_index(st, iv.bits),)
+                        try:
+                            path = path + (self.sym_index(st, iv.bits),)
+                        except InterpError as e_:
+                            raise InterpError("%s (indexing %r at %r in %s line ?)" % (e_, self.read_loc(st, root, path), (root, path), fr.body["key"]))
                 else:
                     path = path + (Opaque("idx"),)
             elif k == "cindex":
@@ -487,7 +496,9 @@ class Interp:
                 w = ii[0]
             return Int(bv.const(int(v["int"]), w))
         if "fn" in v:
-            return Opaque("fn", v["fn"])
+            self.fn_full[v["fn"]] = v.get("full")     # last seen instantiation (used to resolve trait-method fn items)
+            o_ = Opaque("fn", v["fn"])
+            return o_
         if "str" in v:
             return Opaque("str", v["str"])
         if "zst" in v:
@@ -504,6 +515,11 @@ class Interp:
             key = ("const", v["ref_int"], v["bits"], v.get("variant"))
             if key not in self.const_pool:
                 self.const_pool[key] = Enum(v["variant"], ()) if "variant" in v else Int(bv.const(int(v["ref_int"]), v["bits"]))
+            return Ref(key, ())
+        if "ref_array" in v:
+            key = ("const", "array", v["bits"], tuple(v["ref_array"]))
+            if key not in self.const_pool:
+                self.const_pool[key] = Agg([Int(bv.const(int(x), v["bits"])) for x in v["ref_array"]])
             return Ref(key, ())
         if "ref_struct" in v:
             key = ("const", "struct", v.get("path"), tuple((f_["n"], f_["v"]) for f_ in v["ref_struct"]))
@@ -1009,8 +1025,8 @@ class Interp:
             blk = fr.body["blocks"][fr.bb]
             if self.block_hooks:
                 hk = self.block_hooks.get((fr.body["key"], fr.bb))
-                if hk is not None and len(st.frames) == 1:
-                    n = st.count(("visit", fr.bb))
+                if hk is not None and (len(st.frames) == 1 or self.hooks_any_depth):
+                    n = st.count(("visit", fr.bb) if len(st.frames) == 1 else ("visit", fr.fid, fr.bb))
                     act = hk(self, st, fr, n)
                     if act == "stop":
                         self.emit(Outcome("stop", st, None, {"bb": fr.bb, "visit": n}))
